@@ -46,6 +46,7 @@ structure Attr where
   line : Nat
   ty : TypeRef
   inverseFor : Option (String × Nat) := none     -- `INVERSE a : ty FOR name` (name, line)
+  redeclOf : Option String := none               -- `SELF\\sup.name : ty` — the supertype named in the redeclaration
   deriving Repr, DecidableEq
 
 /-- something inside a domain rule -/
@@ -95,16 +96,39 @@ inductive Decl
   | syntaxError (scopeKind scopeName : String) (line : Nat)
   deriving Repr, DecidableEq
 
+/-- one item of a partial interface clause: `old [AS new]` -/
+structure Item where
+  old : String
+  new : Option String
+  line : Nat
+  deriving Repr, DecidableEq
+
+def Item.visibleName (i : Item) : String := i.new.getD i.old
+
+inductive IfaceKind | use | ref
+  deriving Repr, DecidableEq
+
+/-- `USE FROM schema [( items )]` / `REFERENCE FROM schema [( items )]`; `items = none` is the whole-schema form -/
+structure Iface where
+  kind : IfaceKind
+  schema : String
+  line : Nat
+  items : Option (List Item)
+  deriving Repr, DecidableEq
+
 structure Schema where
   name : String
   line : Nat
   decls : List Decl
+  ifaces : List Iface := []
   deriving Repr, DecidableEq
 
-/-- one input file: path, bytes (for the scanner), the schema -/
+/-- one input file: path and its schemas in text order -/
 structure File where
   path : String
-  schema : Schema
+  schemas : List Schema
+  /-- the order in which `DICTdo` delivers the schemas (hash order; a parameter — see `C04_import_order_independent`) -/
+  order : List String := []
   deriving Repr, DecidableEq
 
 /-! ## look-up -/
@@ -126,6 +150,155 @@ def isErrorCode (code : Nat) : Bool := decide (sev code ≥ LibErrors.SEVERITY_E
 
 def mk (path : String) (code line : Nat) (args : List Arg) : Diag := ⟨code, path.toList, line, args, .symbol⟩
 def sArg (s : String) : Arg := .str s.toList
+
+
+/-! ## interfaces (USE / REFERENCE), pass 1 and pass 2 of `EXPRESSresolve` -/
+
+inductive Kind | entity | type | func
+  deriving Repr, DecidableEq
+
+/-- a declared object: home schema, declared name, kind -/
+structure Obj where
+  schema : String
+  name : String
+  kind : Kind
+  deriving Repr, DecidableEq
+
+def findSchema (f : File) (n : String) : Option Schema := f.schemas.find? (·.name = n)
+
+/-- `DICTlookup( schema->symbol_table, name )`: the first declaration of that name -/
+def ownObj (s : Schema) (n : String) : Option Obj :=
+  s.decls.findSome? fun
+    | .entity e => if e.name = n then some ⟨s.name, n, .entity⟩ else none
+    | .type t => if t.name = n then some ⟨s.name, n, .type⟩ else none
+    | .func fn => if fn.name = n then some ⟨s.name, n, .func⟩ else none
+    | .syntaxError .. => none
+
+/-- partial USE items with the schema they import from, in clause order (`uselist`) -/
+def useItems (s : Schema) : List (String × Item) :=
+  s.ifaces.flatMap fun i => match i.kind, i.items with
+    | .use, some its => its.map fun it => (i.schema, it)
+    | _, _ => []
+
+def refItems (s : Schema) : List (String × Item) :=
+  s.ifaces.flatMap fun i => match i.kind, i.items with
+    | .ref, some its => its.map fun it => (i.schema, it)
+    | _, _ => []
+
+def fullUses (s : Schema) : List String :=
+  s.ifaces.filterMap fun i => match i.kind, i.items with | .use, none => some i.schema | _, _ => none
+
+def fullRefs (s : Schema) : List String :=
+  s.ifaces.filterMap fun i => match i.kind, i.items with | .ref, none => some i.schema | _, _ => none
+
+/-- a schema one of whose interface clauses names an undefined schema is marked RESOLVE_FAILED in pass 1 and skipped
+    by every later pass (`is_not_resolvable`) -/
+def resolvable (f : File) (s : Schema) : Bool := s.ifaces.all fun i => (findSchema f i.schema).isSome
+
+def firstSome {α β : Type} (l : List α) (g : α → Option β) : Option β := l.findSome? g
+
+/-- an entry of `T`'s `usedict` under `n`: the first USE item with that visible name that resolved -/
+def viaDict (rec : String → String → Option Obj) (t : Schema) (n : String) : Option Obj :=
+  firstSome (useItems t) (fun x => if x.2.visibleName = n then rec x.1 x.2.old else none)
+
+/-- the fall-back scan of `T`'s `uselist`: the first item with that visible name, resolved on demand -/
+def viaList (rec : String → String → Option Obj) (t : Schema) (n : String) : Option Obj :=
+  ((useItems t).find? (fun x => x.2.visibleName = n)).bind fun x => rec x.1 x.2.old
+
+/-- one level of `SCOPEfind_for_rename( T, n )`; `rec` is the recursive call -/
+def exportStep (f : File) (fb : Bool) (processed : String → Bool) (rec : String → String → Option Obj)
+    (T n : String) : Option Obj :=
+  match findSchema f T with
+  | none => none
+  | some t =>
+    (ownObj t n).or <| (firstSome (fullUses t) (fun U => rec U n)).or <|
+      (if processed T then viaDict rec t n else none).or (if fb then viaList rec t n else none)
+
+/-- `SCOPEfind_for_rename( T, name )`: what schema `T` can hand out under `name` — its own declaration, what a fully
+    USE'd schema hands out, an entry of its `usedict` (exists once `T` itself went through pass 2: `processed T`),
+    and — when the code has the fall-back scan (`fb`, regenerated) — a not-yet-processed item of its `uselist`,
+    resolved on demand.  `none` also when the recursion exceeds `fuel` (cyclic clauses). -/
+def exportOf (f : File) (fb : Bool) (processed : String → Bool) : Nat → String → String → Option Obj
+  | 0 => fun _ _ => none
+  | fuel + 1 => exportStep f fb processed (exportOf f fb processed fuel)
+
+def importFuel (f : File) : Nat := f.schemas.length + (f.schemas.map fun s => s.ifaces.length).sum + 2
+
+/-- the schemas pass 2 has finished before it reaches `S` -/
+def processedBefore (f : File) (S : String) : String → Bool :=
+  let ord := if f.order.isEmpty then f.schemas.map (·.name) else f.order
+  fun T => T ∈ ord.takeWhile (· ≠ S)
+
+/-- `SCHEMAdefine_use` / `SCHEMAdefine_reference` over the items that resolved: a second item under the same visible
+    name is a duplicate unless it is the same object -/
+def aliasDups (path : String) : List (String × Nat × Obj) → List (String × Nat × Obj) → List Diag
+  | [], _ => []
+  | (n, l, o) :: rest, seen =>
+    match seen.find? (·.1 = n) with
+    | some (_, l0, o0) =>
+      if o0 = o then aliasDups path rest seen
+      else mk path LibErrors.DUPLICATE_DECL l [sArg n, .int l0] :: aliasDups path rest seen
+    | none => aliasDups path rest (seen ++ [(n, l, o)])
+
+/-- pass 1 for one schema: `connect_lists` reports every item of a partial clause, `connect_schema_lists` every
+    whole-schema clause, whose schema does not exist -/
+def pass1 (f : File) (s : Schema) : List Diag :=
+  s.ifaces.flatMap fun i =>
+    if (findSchema f i.schema).isSome then []
+    else match i.items with
+      | some its => its.map fun _ => mk f.path LibErrors.UNDEFINED_SCHEMA i.line [sArg i.schema]
+      | none => [mk f.path LibErrors.UNDEFINED_SCHEMA i.line [sArg i.schema]]
+
+/-- the items of one list that resolve, with the object they resolve to -/
+def resolvedItems (f : File) (fb : Bool) (processed : String → Bool) (items : List (String × Item)) : List (String × Nat × Obj) :=
+  items.filterMap fun (src, it) =>
+    (exportOf f fb processed (importFuel f) src it.old).map fun o => (it.visibleName, it.line, o)
+
+/-- pass 2 for one schema: `RENAMEresolve` of the USE items, then of the REFERENCE items -/
+def pass2 (f : File) (fb : Bool) (s : Schema) : List Diag :=
+  let pr := processedBefore f s.name
+  let miss := fun (items : List (String × Item)) => items.filterMap fun (src, it) =>
+    match exportOf f fb pr (importFuel f) src it.old with
+    | some _ => none
+    | none => some (mk f.path LibErrors.REF_NONEXISTENT it.line [sArg it.old, sArg src])
+  miss (useItems s) ++ aliasDups f.path (resolvedItems f fb pr (useItems s)) [] ++
+  miss (refItems s) ++ aliasDups f.path (resolvedItems f fb pr (refItems s)) []
+
+/-- `SCOPE_find( S, name, ENTITY|TYPE )` after pass 2: own declaration, fully USE'd schemas (recursively, with
+    everything *they* see), `usedict`, fully REFERENCE'd schemas (own declarations only), `refdict` -/
+def visible (f : File) (fb : Bool) : Nat → String → String → Option Obj
+  | 0, _, _ => none
+  | fuel + 1, S, n =>
+    match findSchema f S with
+    | none => none
+    | some s =>
+      match ownObj s n with
+      | some o => some o
+      | none =>
+        match firstSome (fullUses s) (fun U => visible f fb fuel U n) with
+        | some o => some o
+        | none =>
+          let all := fun (_ : String) => true
+          match (resolvedItems f fb all (useItems s)).find? (·.1 = n) with
+          | some (_, _, o) => some o
+          | none =>
+            match firstSome (fullRefs s) (fun R => (findSchema f R).bind fun r => ownObj r n) with
+            | some o => some o
+            | none => ((resolvedItems f fb all (refItems s)).find? (·.1 = n)).map (·.2.2)
+
+/-- what the names that are not declared in `s` itself denote inside `s` -/
+structure Env where
+  foreign : String → Option Kind
+
+def envOf (f : File) (fb : Bool) (s : Schema) : Env :=
+  ⟨fun n => match ownObj s n with
+    | some _ => none
+    | none => (visible f fb (importFuel f) s.name n).map (·.kind)⟩
+
+def noEnv : Env := ⟨fun _ => none⟩
+
+/-- `SCOPEfind( …, SCOPE_FIND_ENTITY )` succeeds -/
+def isEnt (env : Env) (s : Schema) (n : String) : Bool := isEntity s n || env.foreign n = some .entity
 
 /-! ## parse time -/
 
@@ -158,20 +331,33 @@ def declParseDiags (path : String) : Decl → List Diag
     | _ => []
   | _ => []
 
-/-- parse-time diagnostics of the schema body up to (and including) the first syntax error -/
-def parseDeclsFrom (path : String) : List Decl → List (String × Nat) → List Diag
-  | [], _ => []
-  | .syntaxError k n l :: _, _ => [mk path LibErrors.SYNTAX l [.str "Syntax error".toList, sArg k, sArg n]]
+/-- parse-time diagnostics of a schema body up to (and including) the first syntax error; the flag says whether the
+    run was cut there -/
+def parseDeclsFrom (path : String) : List Decl → List (String × Nat) → List Diag × Bool
+  | [], _ => ([], false)
+  | .syntaxError k n l :: _, _ => ([mk path LibErrors.SYNTAX l [.str "Syntax error".toList, sArg k, sArg n]], true)
   | d :: ds, seen =>
     let own := declParseDiags path d
     match declKey d with
     | some (n, l) =>
       (match seen.find? (·.1 = n) with
-       | some (_, l0) => mk path LibErrors.DUPLICATE_DECL l [sArg n, .int l0] :: own ++ parseDeclsFrom path ds seen
-       | none => own ++ parseDeclsFrom path ds (seen ++ [(n, l)]))
-    | none => own ++ parseDeclsFrom path ds seen
+       | some (_, l0) =>
+         let r := parseDeclsFrom path ds seen
+         (mk path LibErrors.DUPLICATE_DECL l [sArg n, .int l0] :: own ++ r.1, r.2)
+       | none =>
+         let r := parseDeclsFrom path ds (seen ++ [(n, l)])
+         (own ++ r.1, r.2))
+    | none =>
+      let r := parseDeclsFrom path ds seen
+      (own ++ r.1, r.2)
 
-def parseDiags (f : File) : List Diag := parseDeclsFrom f.path f.schema.decls []
+def parseSchemas (path : String) : List Schema → List Diag
+  | [] => []
+  | s :: ss =>
+    let r := parseDeclsFrom path s.decls []
+    if r.2 then r.1 else r.1 ++ parseSchemas path ss
+
+def parseDiags (f : File) : List Diag := parseSchemas f.path f.schemas
 
 /-! ## the cycle search shared by `ENTITY_check_subsuper_cyclicity` and `TYPE_check_select_cyclicity` -/
 
@@ -233,26 +419,33 @@ structure Pass where
   deriving Repr
 
 /-- `TYPEresolve` of a reference: UNDEFINED_TYPE / NOT_A_TYPE -/
-def typeRefDiags (path : String) (s : Schema) : TypeRef → List Diag
+def typeRefDiags (path : String) (env : Env) (s : Schema) : TypeRef → List Diag
   | .simple => []
-  | .aggr b => typeRefDiags path s b
+  | .aggr b => typeRefDiags path env s b
   | .named n l =>
     if (findType s n).isSome || isEntity s n then []
     else if (findFunc s n).isSome then [mk path LibErrors.NOT_A_TYPE l [sArg n, .str "function".toList]]
-    else [mk path LibErrors.UNDEFINED_TYPE l [sArg n]]
+    else match env.foreign n with
+      | some .func => [mk path LibErrors.NOT_A_TYPE l [sArg n, .str "function".toList]]
+      | some _ => []
+      | none => [mk path LibErrors.UNDEFINED_TYPE l [sArg n]]
 
-def pass3 (f : File) : List Diag :=
-  let s := f.schema
+def pass3 (path : String) (env : Env) (s : Schema) : List Diag :=
   s.decls.flatMap fun
     | .entity e =>
       (e.supers.filterMap fun (n, l) =>
-        if isEntity s n then none else some (mk f.path LibErrors.UNKNOWN_SUPERTYPE l [sArg n, sArg e.name])) ++
+        if isEnt env s n then none else some (mk path LibErrors.UNKNOWN_SUPERTYPE l [sArg n, sArg e.name])) ++
       (e.subs.filterMap fun n =>
-        if isEntity s n then none else some (mk f.path LibErrors.UNKNOWN_SUBTYPE e.line [sArg n, sArg e.name]))
+        if isEnt env s n then none else some (mk path LibErrors.UNKNOWN_SUBTYPE e.line [sArg n, sArg e.name]))
     | .type t =>
       (match t.body with
-       | .ref r => typeRefDiags f.path s r
-       | .select items => items.flatMap fun (n, l) => typeRefDiags f.path s (.named n l)
+       | .ref r =>
+         typeRefDiags path env s r ++
+         -- `TYPE t = e;` with `e` an entity (the check sits behind `ERRORis_enabled( TYPE_IS_ENTITY )`, always on)
+         (match r with
+          | .named n _ => if isEnt env s n then [mk path LibErrors.TYPE_IS_ENTITY t.line [sArg n]] else []
+          | _ => [])
+       | .select items => items.flatMap fun (n, l) => typeRefDiags path env s (.named n l)
        | .enum _ => [])
     | _ => []
 
@@ -277,14 +470,13 @@ def inverseDiags (path : String) (s : Schema) (a : Attr) : List Diag :=
        | none => if (findType s n).isSome then [mk path LibErrors.INVERSE_BAD_ENTITY a.line [sArg attrName]] else [])
     | _ => [mk path LibErrors.INVERSE_BAD_ENTITY a.line [sArg attrName]]
 
-def pass4 (f : File) : List Diag :=
-  let s := f.schema
+def pass4 (path : String) (env : Env) (s : Schema) : List Diag :=
   let fuel := s.decls.length + 1
   s.decls.flatMap fun
     | .type t =>
       (match t.body with
        | .select _ =>
-         cycleDiags f.path LibErrors.SELECT_LOOP LibErrors.SELECT_CONTINUATION (lineOfType s) t.name
+         cycleDiags path LibErrors.SELECT_LOOP LibErrors.SELECT_CONTINUATION (lineOfType s) t.name
            (dfs ResolveGen.visitedReturnsSelect t.name (selectGraph s) fuel (selectGraph s t.name) [])
        | _ => [])
     | .entity e =>
@@ -292,13 +484,13 @@ def pass4 (f : File) : List Diag :=
       ((subtypesOf s e).filterMap fun sub =>
         match findEntity s sub with
         | some se => if e.name ∈ supersOf s se then none
-                     else some (mk f.path LibErrors.MISSING_SUPERTYPE se.line [sArg e.name, sArg se.name])
+                     else some (mk path LibErrors.MISSING_SUPERTYPE se.line [sArg e.name, sArg se.name])
         | none => none) ++
       -- ENTITYresolve_types
-      (e.attrs.flatMap fun a => typeRefDiags f.path s a.ty ++
-        (if (typeRefDiags f.path s a.ty).isEmpty then inverseDiags f.path s a else [])) ++
+      (e.attrs.flatMap fun a => typeRefDiags path env s a.ty ++
+        (if (typeRefDiags path env s a.ty).isEmpty then inverseDiags path s a else [])) ++
       -- ENTITYcheck_subsuper_cyclicity
-      cycleDiags f.path LibErrors.SUBSUPER_LOOP LibErrors.SUBSUPER_CONTINUATION (lineOfEntity s) e.name
+      cycleDiags path LibErrors.SUBSUPER_LOOP LibErrors.SUBSUPER_CONTINUATION (lineOfEntity s) e.name
         (dfs ResolveGen.visitedReturnsSubsuper e.name (subGraph s) fuel (subGraph s e.name) [])
     | _ => []
 
@@ -317,34 +509,64 @@ def namedAttr (s : Schema) (name : String) : Nat → String → Option Bool
         | some true => some true
         | some false => namedAttr s name fuel sup) (some false)
 
-def pass5 (f : File) : Pass :=
-  let s := f.schema
+/-- `ENTITYfind_inherited_entity( e, name, 0 )`: is `name` a proper ancestor of `en` (within `fuel` levels) -/
+def isAncestor (s : Schema) (name : String) : Nat → String → Bool
+  | 0, _ => false
+  | fuel + 1, en =>
+    match findEntity s en with
+    | none => false
+    | some e => (supersOf s e).any fun sup => sup = name || isAncestor s name fuel sup
+
+def pass5 (path : String) (s : Schema) : Pass :=
   let fuel := s.decls.length + 1
   let per := s.entities.map fun e =>
     let overl := e.attrs.flatMap fun a =>
-      (supersOf s e).map fun sup => (namedAttr s a.name fuel sup, mk f.path LibErrors.OVERLOADED_ATTR a.line [sArg a.name, sArg sup])
+      match a.redeclOf with
+      | some _ => []
+      | none => (supersOf s e).map fun sup => (namedAttr s a.name fuel sup, mk path LibErrors.OVERLOADED_ATTR a.line [sArg a.name, sArg sup])
+    -- attribute redeclaration `SELF\sup.attr`
+    let redecl := e.attrs.flatMap fun a =>
+      match a.redeclOf with
+      | none => []
+      | some sup =>
+        if sup = e.name || !isAncestor s sup fuel e.name then
+          [mk path LibErrors.REDECL_NO_SUCH_SUPERTYPE a.line [sArg sup, sArg a.name]]
+        else match findEntity s sup with
+          | some se => if se.attrs.any (·.name = a.name) then []
+                       else [mk path LibErrors.REDECL_NO_SUCH_ATTR a.line [sArg a.name, sArg sup]]
+          | none => []
     let rules := e.rules.flatMap fun r => r.items.flatMap fun
       | .call fn argc =>
         (match findFunc s fn with
          | some fd => if fd.nparams = argc then []
-                      else [mk f.path LibErrors.WRONG_ARG_COUNT r.line [sArg fn, .int argc, .int fd.nparams]]
+                      else [mk path LibErrors.WRONG_ARG_COUNT r.line [sArg fn, .int argc, .int fd.nparams]]
          | none =>
            match builtinArity fn with
-           | some n => if n = argc then [] else [mk f.path LibErrors.WRONG_ARG_COUNT r.line [sArg fn.toUpper, .int argc, .int n]]
-           | none => [mk f.path LibErrors.UNDEFINED_FUNC r.line [sArg fn],
-                      mk f.path LibErrors.MISSING_SELF r.line [sArg r.label]])
+           | some n => if n = argc then [] else [mk path LibErrors.WRONG_ARG_COUNT r.line [sArg fn.toUpper, .int argc, .int n]]
+           | none => [mk path LibErrors.UNDEFINED_FUNC r.line [sArg fn],
+                      mk path LibErrors.MISSING_SELF r.line [sArg r.label]])
       | .selfAttr an =>
         (match namedAttr s an fuel e.name with
          | some true => []
-         | _ => [mk f.path LibErrors.UNKNOWN_ATTR_IN_ENTITY r.line [sArg an, sArg e.name]])
+         | _ => [mk path LibErrors.UNKNOWN_ATTR_IN_ENTITY r.line [sArg an, sArg e.name]])
       | .smallReal _ => []
-    (overl, rules)
+    (overl, redecl ++ rules)
   { diags := per.flatMap fun (overl, rules) => (overl.filterMap fun (r, d) => if r = some true then some d else none) ++ rules,
     diverges := per.any fun (overl, _) => overl.any fun (r, _) => r = none }
 
+/-- the schemas the later passes look at -/
+def liveSchemas (f : File) : List Schema := f.schemas.filter (resolvable f)
+
+/-- all five passes over the whole file (each pass runs over every live schema before the next one starts; no pass is
+    gated on errors of an earlier one) -/
 def resolveDiags (f : File) : Pass :=
-  let p5 := pass5 f
-  { diags := pass3 f ++ pass4 f ++ p5.diags, diverges := p5.diverges }
+  let fb := ResolveGen.renameUselistFallback
+  let live := liveSchemas f
+  let p5 := live.map fun s => pass5 f.path s
+  { diags := f.schemas.flatMap (pass1 f) ++ live.flatMap (pass2 f fb) ++
+             live.flatMap (fun s => pass3 f.path (envOf f fb s) s) ++
+             live.flatMap (fun s => pass4 f.path (envOf f fb s) s) ++ p5.flatMap (·.diags),
+    diverges := p5.any (·.diverges) }
 
 /-! ## the verdict -/
 
